@@ -66,7 +66,7 @@ unflatten.dict_hint = Inner
 
 
 # ---- pickling: the pickle carries the class and a plain deep copy of the contents, nothing else -------------------------
-PyClass = opaque('PyClass', is_str=False)
+PyClass = opaque('PickledClass', is_str=False)
 Plain = opaque('PlainDict', is_str=False)
 CLS_FD = GlobalVar('FrozenDict', PyClass)
 unfrozen = UFn('unfrozen', [Inner], Plain, 'the nested plain-dict deep copy of the contents (FrozenDict.unfreeze)')
@@ -81,3 +81,49 @@ reduce_ = function(
     'result[1][0] == unfrozen(self._dict)',
   ],
   bindings={'FrozenDict': CLS_FD, 'FrozenDict.unfreeze': _unfreeze}, modifies=[], props=('C15',))
+
+# ---- FrozenDict.pop: a NEW FrozenDict without the key, the removed value, and the receiver untouched ----------------------
+wrap_value = UFn('frozen_view_of', [V], V, 'what __getitem__ hands out for a stored value: FrozenDict(v) for a nested dict, v itself otherwise')
+
+
+def _fd_getitem(ex, a, kw):
+  """self[key]: KeyError for a missing key, otherwise the (frozen view of the) stored value"""
+  from pyvc.symexec import RaiseEx, ExcVal
+  fd, key = ex.deref(a[0]), ex.coerce(a[1], K)
+  d = ex.deref(ex.getattr_(fd, '_dict'))
+  if not ex.decide(Inner.has(d.t, key.t), 'key-present'):
+    raise RaiseEx(ExcVal(TypeTag('KeyError', (TypeTag('Exception'),)), []))
+  return ex.call_value(wrap_value, [SV(V, Inner.get(d.t, key.t))], {})
+
+
+def _type_of_fd(ex, a, kw):
+  return Handler('FrozenDict', lambda ex2, a2, kw2: _cls(ex2, a2, kw2), 'type(self) is FrozenDict: FrozenDict(mapping) holds exactly that mapping (values are opaque: _prepare_freeze acts inside them)')
+
+
+FD.getitem = lambda ex, base, idx: _fd_getitem(ex, [base, idx], {})
+PopRes = TupleOf(FD, V)
+fd_pop = function(
+  F + '::FrozenDict.pop', params=[('self', FD), ('key', K)], returns=PopRes,
+  raises={'KeyError': 'not (key in self._dict)'},
+  ensures=[
+    'result[1] == frozen_view_of(old(self._dict)[key])',
+    'forall(DictKeyName, lambda k: (k in result[0]._dict) == (k in old(self._dict) and k != key))',
+    'forall(DictKeyName, lambda k: implies(k in result[0]._dict, result[0]._dict[k] == old(self._dict)[k]))',
+    'result[0] != self and self._dict == old(self._dict)',        # value semantics: the receiver is not changed
+  ],
+  bindings={'FrozenDict.__getitem__': Handler('FrozenDict.__getitem__', _fd_getitem, 'contract of __getitem__'),
+            'type': Handler('type', _type_of_fd, 'type(self)')},
+  props=('C15',))
+fd_pop.frame_except = {'FrozenDict._dict': "r == ghost('constructed')"}
+fd_pop.dict_hint = Inner
+fd_pop.locals = {'new_dict': Inner}
+
+# ---- FrozenDict.__getitem__: a nested dict is handed out frozen (never the mutable dict itself), anything else as stored ----
+v_is_dict = UFn('value_is_dict', [V], BOOL, 'isinstance(v, dict)')
+frozen_of = UFn('frozen_copy_of', [V], V, 'FrozenDict(v)')
+V.isinstance_hook = lambda ex, v, names: ex.call_value(v_is_dict, [v], {}).t if names == {'dict'} else (_ for _ in ()).throw(OutsideSubset('isinstance ' + repr(names)))
+fd_getitem = function(
+  F + '::FrozenDict.__getitem__', params=[('self', FD), ('key', K)], returns=V,
+  requires=['key in self._dict'],      # a missing key is python's own KeyError of the inner dict (not modelled as a raise by the engine)
+  ensures=['result == (frozen_copy_of(self._dict[key]) if value_is_dict(self._dict[key]) else self._dict[key])'],
+  bindings={'FrozenDict': frozen_of, 'dict': TypeTag('dict')}, modifies=[], props=('C15',))
